@@ -7,15 +7,15 @@ fresh queue `q`, tables `tb` before, current value `v0` of the watched variable,
 timed history `hist` (state changes, events, cancellation of the waiter).  `Spec.first` = the first of {check-now,
 first decisive occurrence, deadline anchored at the call}.  Only property statements live here.
 
-`fl : Flags` chooses between the code before and after the three `fix:` commits of /repo:
-`Flags.current` (d8d17a4 stop-on-cancel, 74d9745 timeout=0, 28f0376 anchored `now`) is what the check ties to the
-working tree; `Flags.preFix` is the tree before them.  The `_flags` theorems are proved for EVERY flag value with
+`fl : Flags` chooses between the code before and after the four `fix:` commits of /repo:
+`Flags.current` (d8d17a4 stop-on-cancel, 74d9745 timeout=0, 28f0376 anchored `now`, 3b0ef9c `none` only for a lone
+expired time trigger) is what the check ties to the working tree; `Flags.preFix` is the tree before them.  The `_flags` theorems are proved for EVERY flag value with
 the fragment depending on the flag; the unsuffixed ones are their instances at `Flags.current`; the `_regress_`
 theorems are kernel-checked witnesses that the pre-fix shapes violate what now holds (they would fail to build if
 somebody re-introduced the old shape as current and kept the full theorems).
 
-Still open (the code deviates): C15-F1 (legacy cancellation leak), C15-F4 (legacy parse-error leak), C15-F5 (new:
-`none` returned early) – `_partial` + `_cex` below.
+Still open (the code deviates): C15-F1 (legacy cancellation leak), C15-F4 (legacy parse-error leak) – `_partial` +
+`_cex` below.  The first-of statement is now FULL for both subsystems.
 -/
 namespace PsModel.C15
 open Spec
@@ -53,26 +53,24 @@ theorem C15_first_regress_legacy_reanchor :
     (Legacy.run Flags.current cfg 7 tb 0 1 hist).1 = .ret 3001 (.time 3001) := by
   decide
 
-/-- **First qualifying trigger (new), every flag value.**  Same statement for the new subsystem when a time trigger
-without future instant is not combined with anything else (C15-F5, open) and – only for the pre-fix shape – the
-timeout is not 0. -/
+/-- **First qualifying trigger (new), every flag value.**  Same statement for the new subsystem; only for the
+pre-fix shapes: the timeout is not 0 (`timeout0Absent`) and a time trigger without future instant is not combined
+with anything else (`noneEager`). -/
 theorem C15_first_new_flags (fl : Flags) (cfg : Cfg) (call : Nat) (hwf : WellFormed cfg)
     (htz : fl.timeout0Absent = true → cfg.timeout ≠ some 0)
-    (hdead : hasTime cfg = true →
+    (hdead : fl.noneEager = true → hasTime cfg = true →
       (timeNext cfg.time call).isSome = true ∨ (hasListen cfg = false ∧ cfg.timeout = Option.none))
     (q : Nat) (tb : Tables) (v0 : Nat) (hist : Hist) (hm : Mono call hist) :
     (New.run fl cfg q tb v0 call hist).1 = first cfg v0 call hist :=
   new_first fl cfg hwf htz hdead q tb v0 hist hm
 
-/-- **First qualifying trigger (new), the code as it is now – still partial because of C15-F5.**  Every timeout,
-including 0, is honoured; the only excluded arguments are a time trigger without future instant next to other
-conditions. -/
-theorem C15_first_new_partial (cfg : Cfg) (call : Nat) (hwf : WellFormed cfg)
-    (hdead : hasTime cfg = true →
-      (timeNext cfg.time call).isSome = true ∨ (hasListen cfg = false ∧ cfg.timeout = Option.none))
+/-- **First qualifying trigger (new), FULL statement, the code as it is now.**  For ALL well-formed arguments – every
+timeout including 0, every time trigger including expired ones next to other conditions –, all current values, call
+instants and time-ordered histories the call ends exactly as specified. -/
+theorem C15_first_new (cfg : Cfg) (call : Nat) (hwf : WellFormed cfg)
     (q : Nat) (tb : Tables) (v0 : Nat) (hist : Hist) (hm : Mono call hist) :
     (New.run Flags.current cfg q tb v0 call hist).1 = first cfg v0 call hist :=
-  new_first Flags.current cfg hwf (by intro h; cases h) hdead q tb v0 hist hm
+  new_first Flags.current cfg hwf (by intro h; cases h) (by intro h; cases h) q tb v0 hist hm
 
 /-- **Regression witness (new), fixed finding C15-F3 (#23, 74d9745).**  `task.wait_until(event_trigger="e",
 timeout=0)`: the pre-fix shape never returns (and `timeout=0` alone raises); the repaired shape returns `timeout` at
@@ -91,16 +89,24 @@ theorem C15_first_regress_new_timeout0 :
     (Legacy.run Flags.current cfg 7 tb 0 1 []).1 = .ret 1 .timeout := by
   decide
 
-/-- **Witness (new), open finding C15-F5.**  A time trigger without any future instant next to an event trigger: the
-new subsystem returns `none` at once instead of waiting for the event (legacy and the specification wait). -/
-theorem C15_first_cex_new_none_early :
+/-- **Regression witness (new), fixed finding C15-F5 (3b0ef9c).**  A time trigger without any future instant next to
+an event trigger (or a timeout): the pre-fix shape returns `none` at once; the repaired shape waits for the event /
+the timeout like legacy and the specification, and still answers `none` when the expired time trigger is alone. -/
+theorem C15_first_regress_new_none_early :
     let cfg : Cfg := { state := Option.none, time := .abs 0, mqtt := Option.none, timeout := Option.none,
                        event := some { filt := Option.none, parseOK := true } }
+    let withTo : Cfg := { state := Option.none, time := .abs 0, mqtt := Option.none, timeout := some 2000, event := Option.none }
+    let alone : Cfg := { state := Option.none, time := .abs 0, mqtt := Option.none, timeout := Option.none, event := Option.none }
     let tb : Tables := { stSubs := [], evSubs := [], evListeners := 0, mqSubs := [], mqListeners := 0, tasks := 0 }
     let hist : Hist := [(1001, .event 4)]
     first cfg 0 1 hist = .ret 1001 (.event 4) ∧
     (Legacy.run Flags.current cfg 7 tb 0 1 hist).1 = .ret 1001 (.event 4) ∧
-    (New.run Flags.current cfg 7 tb 0 1 hist).1 = .ret 1 .none := by
+    (New.run Flags.preFix cfg 7 tb 0 1 hist).1 = .ret 1 .none ∧
+    New.run Flags.current cfg 7 tb 0 1 hist = (.ret 1001 (.event 4), tb) ∧
+    first withTo 0 1 [] = .ret 2001 .timeout ∧
+    (New.run { Flags.current with noneEager := true } withTo 7 tb 0 1 []).1 = .ret 1 .none ∧
+    New.run Flags.current withTo 7 tb 0 1 [] = (.ret 2001 .timeout, tb) ∧
+    New.run Flags.current alone 7 tb 0 1 hist = (.ret 1 .none, tb) ∧ first alone 0 1 hist = .ret 1 .none := by
   decide
 
 /-! ## occurrences before the call or after the return -/
